@@ -330,6 +330,7 @@ H_LANG = r'''
         let t = table(&kinds);
         let want = in_lang(&t, n);
         assert!((r.out == Out::Accept) == want, "accepted iff derivable from the start symbol");
+        assert!(N_TERMINAL_NAMES == @NACTIVE@, "the terminal name table has exactly the active non-error terminals");
 @COVERS@
     }
 '''
@@ -456,7 +457,7 @@ def harness_module(job: Job):
     txt.append(common)
     hs = []
     if "lang" in job.kinds:
-        txt.append(H_LANG.replace("@UNWIND@", str(unwind)).replace("@COVERS@", covers_for(spec, n)))
+        txt.append(H_LANG.replace("@UNWIND@", str(unwind)).replace("@COVERS@", covers_for(spec, n)).replace("@NACTIVE@", str(sum(1 for a in spec.active if a))))
         hs.append("lang")
     if "errpos" in job.kinds:
         txt.append(H_ERRPOS.replace("@UNWIND@", str(unwind)))
